@@ -428,12 +428,13 @@ class RuleProxy:
         self._R.tables = v
 
 
-def transport_registration_rule(F, R, rule):
+def transport_registration_rule(F, R, rule, op='queue_set'):
     """The transports' queue_set write the three area addresses they receive - each 64-bit address split into its own
-    low/high words, into its own register - and nothing else (register traces of C10.M2 / C11.W3 under another rule id)."""
+    low/high words, into its own register - and nothing else (register traces of C10.M2 / C11.W3 under another rule id).
+    With op='notify': the notification register / window slot receives the queue's index."""
     from . import C10 as _c10, C11 as _c11
-    _qs = lambda inst: 'queue_set' in inst
-    _c10.ONLY_OPS = {'queue_set'}
+    _qs = lambda inst: op in inst
+    _c10.ONLY_OPS = {op}
     try:
         _c10.run(F, RuleProxy(R, {'M2': rule}, only=_qs))
     finally:
